@@ -955,6 +955,15 @@ class Spec:
             j = ev(args[1]).x
             rets = [t for t in st.trace if t[0] == 'ret' and self.prog.short(t[1]).endswith(want)]
             if not rets:
+                # no such call on this path yet: an unconstrained value of the callee's result type
+                try:
+                    for fnn, ff in self.prog.funcs.items():
+                        if self.prog.short(fnn).endswith(want) and '$' not in fnn:
+                            rts = (self.prog.under(ff['sig'])[1].get('results') or [])
+                            if j < len(rts):
+                                return ex.fresh_val(rts[j], 'noret', st)
+                except Exception:
+                    pass
                 return V('bool', ex.fresh('noret', BoolS))
             return rets[-1][2][j]
         if fn == 'deref':
